@@ -271,6 +271,27 @@ func cmdCheck(args []string) {
 	for o, r := range solveAll(goals, secs, confirm, 12, "") {
 		results[o] = r
 	}
+	// second chance: an obligation that no solver decided within the limit is
+	// re-asked with a long limit before it is reported (machine load must not
+	// turn a slow proof into an alarm)
+	var retry []*Oblig
+	for _, o := range goals {
+		if st := results[o].Status; st != "unsat" && st != "sat" {
+			retry = append(retry, o)
+		}
+	}
+	if len(retry) > 0 {
+		long := secs * 6
+		if long < 90 {
+			long = 90
+		}
+		for o, r := range solveAll(retry, long, false, 6, "") {
+			if r.Status == "unsat" || r.Status == "sat" {
+				r.Confirm = "decided on retry with a " + fmt.Sprint(long) + " s limit"
+				results[o] = r
+			}
+		}
+	}
 	for o, r := range solveAll(covers, 3, false, 12, "") {
 		results[o] = r
 	}
@@ -516,6 +537,7 @@ func cmdBaseline(args []string) {
 		os.Exit(2)
 	}
 	out := map[string][]string{}
+	memo := map[string]*FuncResult{}
 	files, _ := filepath.Glob(filepath.Join(root, "props", "*.json"))
 	sort.Strings(files)
 	for _, f := range files {
@@ -527,13 +549,20 @@ func cmdBaseline(args []string) {
 		}
 		var names []string
 		for _, u := range spec.Functions {
-			res := verifyFunctionH(prog, ctr, u, 10)
+			// obligation names do not depend on which inferred candidates survive: no solving needed
+			res, ok := memo[u]
+			if !ok {
+				res = verifyFunction(prog, ctr, u, map[string]bool{})
+				memo[u] = res
+			}
 			if res.Err != "" {
 				fmt.Fprintln(os.Stderr, "baseline:", u, res.Err)
 				os.Exit(2)
 			}
 			for _, o := range res.Obls {
-				names = append(names, o.Name)
+				if o.Kind != "cand" {
+					names = append(names, o.Name)
+				}
 			}
 		}
 		for _, l := range spec.Lemmas {
